@@ -84,6 +84,13 @@ func main() {
 	defer canary.Stop()
 	v6ok = probeV6()
 	run.Extra("ipv6_loopback_available", v6ok)
+	if v6ok {
+		secondV6 = probeSecondV6()
+	}
+	run.Extra("second_ipv6_address", secondV6)
+	if secondV6 == "" {
+		run.Assume("no second (non-loopback, non-link-local) IPv6 address on this host: attempts between two native IPv6 addresses are not exercised")
+	}
 
 	if run.Replay != "" {
 		replay()
